@@ -118,7 +118,7 @@ impl StrKind {
         match self {
             StrKind::Numeric => "0123456789 ",
             StrKind::Printable => "ABCxyz019 '()+,-./:=?",
-            _ => "ABCxyz019 !#$%&*;<>@[]^_{}~",
+            _ => "ABCxyz019 !#$%&*;<>@[]^_{}~\"\\",
         }
     }
 }
